@@ -175,6 +175,9 @@ func genProj(r *rng, spare int) *Proj {
 		if r.chance(18) {
 			// sources=glob([...]) evaluated in the package directory; the root package's `**` patterns walk the whole project
 			t.Glob = []string{"**/*.txt", "*.txt", "d0/**"}[r.below(3)]
+			if t.Glob == "**/*.txt" && r.chance(60) {
+				t.GlobEx = "d0*" // matches the directory d0 itself, none of the files below it
+			}
 		}
 		if t.Glob == "" && r.chance(15) {
 			t.SelfLists = true // the body works on self.sources / self.dependencies / self.generates
